@@ -100,6 +100,8 @@ inductive Stmt
   | tab (op : TOp) (r : TRef)
   | join (r1 r2 : TRef)           -- SELECT count(*) FROM r1 a, r2 b
   | two (op : COp) (a b : TRef)   -- target a, source b
+  | tabI (op : TOp) (r : TRef)    -- the statement of `tab` with its table named through IDENTIFIER('<r>') / IDENTIFIER($var)
+  | writePandas (v : Nat) (r : TRef)   -- write_pandas(conn, df, table, database=?, schema=?) with one row (v)
   | selectCtx
   deriving DecidableEq, Repr
 
@@ -246,6 +248,10 @@ def Stmt.needs : Stmt → Bool × Bool
   -- MERGE is decomposed; its first statement creates the unqualified temporary table `merge_candidates`
   | .two .merge _ _ => (true, true)
   | .two _ a _ => (a.needDb, a.needSchema)
+  -- `transforms.identifier` puts the whole dotted name into ONE identifier: the table looks unqualified
+  | .tabI _ _ => (true, true)
+  -- write_pandas talks to DuckDB directly: no guard at all
+  | .writePandas _ _ => (false, false)
 
 /-- statements fakesnow cannot build at all: MERGE with a schema- or database-qualified source makes the decomposition
     produce `… FROM merge_candidates AS db.s.t`, a sqlglot ParseError before anything runs (C12's finding) -/
@@ -319,6 +325,15 @@ def exec (c : Cat) (ss : Session) : Stmt → Res × Cat × Session
   | .two op a b =>
     let r := c.applyTwo op (duckResolve c ss.path op.creates a) (duckResolve c ss.path false b)
     (r.1, r.2, ss)
+  | .tabI op r =>
+    let q := duckResolve c ss.path op.isCreate r
+    let r := c.applyT op q.1 q.2.1 q.2.2
+    (r.1, r.2, ss)
+  | .writePandas v r =>
+    -- `INSERT INTO <name> SELECT * FROM df` on the DuckDB connection; DuckDB's exceptions reach the caller untranslated
+    let q := duckResolve c ss.path false r
+    let a := c.applyT (.insert v) q.1 q.2.1 q.2.2
+    if a.1 = .ok then (.ok, a.2, ss) else (.err .raw, c, ss)
   | .selectCtx => (.ctx (some ss.path.1) (some ss.path.2), c, ss)
 
 namespace Impl
@@ -428,6 +443,14 @@ def sexec (c : Cat) (x : Ctx) : Stmt → Res × Cat × Ctx × Option (Name × Na
       match x.resolveT r2 with
       | .error e => (.err e, c, x, none)
       | .ok b => let r := c.applyTwo op a b; (r.1, r.2, x, none)
+  | .tabI op r =>
+    match x.resolveT r with
+    | .error e => (.err e, c, x, none)
+    | .ok (d, s, n) => let r := c.applyT op d s n; (r.1, r.2, x, none)
+  | .writePandas v r =>
+    match x.resolveT r with
+    | .error e => (.err e, c, x, none)
+    | .ok (d, s, n) => let r := c.applyT (.insert v) d s n; (r.1, r.2, x, none)
   | .selectCtx => (.ctx x.db x.schema, c, x, none)
 
 namespace Spec
@@ -475,7 +498,7 @@ def World.coherent (w : World) : Bool := w.sessions.all (·.coherent w.cat)
 inductive Key
   | useDatabaseStaleSchema | dropDatabaseUnsupported | useWithoutKind | schemaDroppedByOtherConnection
   | nonFirstTableUnqualified | unqualifiedFallsBackToMain | currentSchemaMainWhenNone | useSchemaWithoutDatabase
-  | connectNamesMissingContext | mergeQualifiedSource
+  | connectNamesMissingContext | mergeQualifiedSource | identifierFunctionUnqualified | writePandasBypassesGuards
   deriving DecidableEq, Repr
 
 def Key.name : Key → String
@@ -489,6 +512,8 @@ def Key.name : Key → String
   | .useSchemaWithoutDatabase => "C03/use-schema-without-database-2043"
   | .connectNamesMissingContext => "C03/connect-names-missing-context"
   | .mergeQualifiedSource => "C03/merge-qualified-source"
+  | .identifierFunctionUnqualified => "C03/identifier-function-treated-as-unqualified"
+  | .writePandasBypassesGuards => "C03/write-pandas-bypasses-guards-and-error-translation"
 
 /-- a one-part lookup that DuckDB answers from the current catalog's `main` schema -/
 def fallsBack (c : Cat) (path : Name × Name) : TRef → Bool
@@ -509,6 +534,14 @@ def localRegion (c : Cat) (ss : Session) : Stmt → Option Key
     then some .nonFirstTableUnqualified
     else if fallsBack c ss.path r1 || fallsBack c ss.path r2 then some .unqualifiedFallsBackToMain
     else none
+  | .tabI op r =>
+    if (ss.guard (true, true)).isSome && (ss.guard (r.needDb, r.needSchema)).isNone then some .identifierFunctionUnqualified
+    else if !op.isCreate && fallsBack c ss.path r then some .unqualifiedFallsBackToMain else none
+  | .writePandas v r =>
+    let q := duckResolve c ss.path false r
+    if (ss.guard (r.needDb, r.needSchema)).isSome || (c.applyT (.insert v) q.1 q.2.1 q.2.2).1 != .ok
+    then some .writePandasBypassesGuards
+    else if fallsBack c ss.path r then some .unqualifiedFallsBackToMain else none
   | .two op a b =>
     if (Stmt.two op a b).rawFails then some .mergeQualifiedSource
     else if (ss.guard (Stmt.two op a b).needs).isNone && (ss.guard (b.needDb, b.needSchema)).isSome
